@@ -53,6 +53,18 @@ def find_match(n, min_arms):
     return None
 
 
+def walk_nodes(n):
+    """all nodes of a syntax subtree in source order"""
+    if isinstance(n, dict):
+        yield n
+        for k in n:
+            if isinstance(n[k], (dict, list)):
+                yield from walk_nodes(n[k])
+    elif isinstance(n, list):
+        for x in n:
+            yield from walk_nodes(x)
+
+
 def events(n, out):
     """evaluation-order walk of an arm body collecting reader / writer events"""
     if isinstance(n, list):
@@ -493,6 +505,58 @@ def rule_current_point(ctx, f, ast, rt, a):
                 ok = "current_point" in txt and ("Some(p)" in txt or "subpath_start" in txt)
                 ctx.check(ok, "C08-G1", "serialize_ops#%s.current_point" % v[0], "the serializer does not track the current point after %s: the v "
                           "shorthand is chosen against a stale point" % v[0], "pdf/src/content.rs:%d" % arm["line"], detail="%s: current_point = Some(p)" % v[0])
+                # the value the two state variables hold when the arm ends (assignments evaluated in statement order)
+                env = {}
+                for n in walk_nodes(arm["body"]):
+                    if isinstance(n, dict) and n.get("k") == "assign" and n.get("left") in ("current_point", "subpath_start"):
+                        rhs = norm(n.get("right_text", ""))
+                        for var in ("current_point", "subpath_start"):
+                            if rhs == var:
+                                rhs = env.get(var, "OLD(%s)" % var)
+                        env[n["left"]] = rhs
+                cp = env.get("current_point", "")
+                if v[0] == "Rect":
+                    okv = "rect.x" in cp and "rect.y" in cp and env.get("subpath_start", "") == cp
+                    ctx.check(okv, "C08-G1", "serialize_ops#Rect.value", "after `re` the serializer's current point is %r (the reader sets both the current point and the subpath "
+                              "start to the rectangle's origin): the `v` shorthand is chosen against a different point than the reader will assume" % cp,
+                              "pdf/src/content.rs:%d" % arm["line"], detail="current_point = subpath_start = Some(rect origin)")
+                if v[0] == "Close":
+                    okv = cp == "OLD(subpath_start)"
+                    ctx.check(okv, "C08-G1", "serialize_ops#Close.value", "after `h` the serializer's current point is %r, the reader returns to the subpath start" % cp,
+                              "pdf/src/content.rs:%d" % arm["line"], detail="current_point = subpath_start")
+                if v[0] == "MoveTo":
+                    okv = cp and env.get("subpath_start") == cp
+                    ctx.check(bool(okv), "C08-G1", "serialize_ops#MoveTo.value", "after `m` current point (%r) and subpath start (%r) differ" % (cp, env.get("subpath_start")),
+                              "pdf/src/content.rs:%d" % arm["line"], detail="current_point = subpath_start = Some(p)")
+
+
+def rule_enum_cast(ctx, f, ast):
+    """the serializer writes enumerated operands as `value as u8`: the enum's discriminants must be the specification's numbers"""
+    ctx.rule("C08-SIB-enum", "an enumerated operand that the serializer writes as `<enum> as <int>` has the specification's number as the discriminant of each variant "
+             "(the reader maps numbers to variants by name, the writer by declaration order)")
+    fns = ast.find("pdf/src/content.rs", "serialize_ops")
+    txt = norm(json.dumps(fns[0]["body"])) if fns else ""
+    n = 0
+    for op, row in SPEC.items():
+        if "enum" not in row:
+            continue
+        names = set(row["enum"].values())
+        adts = [a for k, a in f.adts.items() if k.startswith("content::") and a.get("kind") == "Enum" and {v["name"] for v in a["variants"]} == names]
+        if not adts:
+            ctx.lost("C08-SIB-enum", "enum with variants %s (operand of `%s`)" % (sorted(names), op))
+            continue
+        # does the writer cast a value for this keyword?
+        cast = re.search(r'\{\} ' + re.escape(op) + r'\\*",[a-z_]+as(u8|i32|u32|usize)', txt.replace(" ", "")) is not None or re.search(r"as\s*(u8|i32)", txt) is not None
+        if not cast:
+            continue
+        n += 1
+        a = adts[0]
+        for val, name in row["enum"].items():
+            got = [v for v in a["variants"] if v["name"] == name]
+            ctx.check(bool(got) and got[0].get("discr") == int(val), "C08-SIB-enum", "%s#%s" % (a["path"].split("::")[-1], name),
+                      "%s::%s has discriminant %s, but `%s %s` means %s: the serializer (which writes the discriminant) and the reader (which maps %s to %s) disagree"
+                      % (a["path"].split("::")[-1], name, got[0].get("discr") if got else "?", val, op, name, val, name), a["span"], detail="%s = %s" % (name, val))
+    ctx.floor("C08-SIB-enum", n, 3, "enumerated operands written by casting (j, J, Tr)")
 
 
 def rule_drain(ctx, f):
@@ -548,6 +612,7 @@ def run(ctx):
     rule_table(ctx, f, ast, rt)
     rule_sib(ctx, f, ast, rt, a)
     rule_current_point(ctx, f, ast, rt, a)
+    rule_enum_cast(ctx, f, ast)
     rule_drain(ctx, f)
     return ctx.finish(
         "Static analysis of the syntax trees of the operator dispatcher and the serializer (astx), joined with MIR facts for placeholder types "
